@@ -4,7 +4,7 @@
 (* on every input up to the bound and (2) printed as one JSON behaviour with *)
 (* the spec's expected result of every API call, to be replayed into the     *)
 (* real code.                                                                *)
-EXTENDS Gen, Beh, Laws
+EXTENDS Gen, Beh, Laws, Search
 
 CONSTANTS EmitMode, Variants
 
@@ -164,6 +164,14 @@ T16_Laws == Done => \A w \in LawPairs(Ast, fl) :
        /\ (Strict(Ast) /\ Strict(b) /\ ~Nullable(Ast, Ng, fl) /\ ~(HasBref(Ast) /\ IterAmbig(Ast))) =>
              LET ma == AllMatches(Ast, Ng, s, fl)  mb == AllMatches(b, ngb, s, fl) IN
              [j \in 1..Len(ma) |-> <<ma[j].st, ma[j].en>>] = [j \in 1..Len(mb) |-> <<mb[j].st, mb[j].en>>]
+
+(* T18 (C08, design level): with the facts the MODEL derives from the lowered operator tree, the search loop of  *)
+(* Search.tla finds exactly the leftmost match start from every start position - every shortcut is a pure        *)
+(* optimisation of "try every position".                                                                         *)
+T18_SearchSound == Done => LET P == ProgOf IN
+  LangUnspec(P) \/ LET o == Program(P, Render(P.ast))  fa == FactsOf(P, o) IN
+     \A s \in Inputs : \A i \in 1..Len(s) + 1 :
+        SearchStart(P, fa, s, i) = LeftmostStart(P.ast, P.ng, s, i, P.F)
 
 (* T11 (C14): under flag x, white space inserted outside class expressions changes nothing; inside a class    *)
 (* expression it is kept.  Stated on the parser: Parse(Strip(p')) = Parse(p) whenever the insertion point is *)
